@@ -86,6 +86,7 @@ S = {
  'expr-statements': 'a() if x else b()\nlambda: 0\n(lambda v: v)(1)\n[i for i in y]\n{k: v for k, v in z}\n{1: 2}\n{1, 2}\nx.y\nx[0]\nx[1:2]\nf"{x!r:>{w}}"\n-x\nx < y < z\nx and y or z\n(w := 1)\n...\nnot x\na @ b\n(yield_ for yield_ in ())\n1, 2\n[*a, *b]\nf(*a, **k)\n"s" "t"\nb"b"\nNone\nawait_ = 1\nx if (lambda: y)() else {z: [lambda: 0]}\n',
  'same-section-titles': 'class x:\n    """Intro.\n\n    Example\n    =======\n    one\n\n    Example\n    =======\n    two\n\n    Example\n    =======\n    three\n\n    Example-1\n    =========\n    four\n\n    Sub\n    ---\n    a\n\n    Sub\n    ---\n    b\n\n    Sub\n    ---\n    c\n    """\ndef y():\n    """X\n    =\n    a\n\n    X-1\n    ===\n    b\n\n    X\n    =\n    c\n\n    X\n    =\n    d\n    """\n',
  'ctor-no-params': "class a:\n    def __init__(): pass\nclass b:\n    def __new__(): pass\nclass c(a): pass\nclass d:\n    @classmethod\n    def make() -> 'd': pass\n    @staticmethod\n    def build() -> 'd': pass\n    @classmethod\n    def mk2(*a, **k) -> 'd': pass\nclass e:\n    def __init__(*args): pass\n    def __new__(**kw): pass\nclass f(b, d): pass\n",
+ 'dup-in-dup-then-redefined': 'class x:\n    class R:\n        def read(self): "1"\n        def read(self): "2"\n        v = 1\n        v = 2\n    class R:\n        def read(self): "3"\n    def m(self): pass\n    def m(self): pass\nclass x:\n    class R:\n        pass\nif True:\n    class x:\n        pass\ndef y():\n    pass\ndef y():\n    pass\nclass y:\n    def y(self): pass\n    def y(self): pass\n',
  'attrs-odd': 'import attr, attrs\n@attr.s(auto_attribs=True, kw_only=1, init=nope)\nclass x:\n    a: int\n    b: "(" = attr.ib()\n    c = attr.ib(type="(")\n    d = attr.Factory(list)\n@attrs.define\nclass y:\n    a: int = attrs.field(default=1)\n@attr.s()\nclass z(x): pass',
  'deprecated-odd': 'from twisted.python.deprecate import deprecated, deprecatedProperty\nfrom incremental import Version\n@deprecated(Version("p", "NEXT", 0, 0))\ndef a(): pass\n@deprecated(Version("p", 1, 2, 3), replacement=a)\ndef b(): pass\n@deprecated(version=Version(package="p", major=1, minor=2, micro=3), replacement="x\\ry")\nclass c: pass\n@deprecated(Version("p", 1, 2))\ndef d(): pass\nclass K:\n    @deprecatedProperty(Version("p", 1, 2, 3))\n    def e(self): pass',
  'overload-odd': 'import typing as t\n@t.overload\n@staticmethod\ndef x(): ...\n@t.overload\nclass y: ...\n@t.overload\nasync def z(a): ...\nasync def z(a): pass\nclass K:\n    @t.overload\n    def m(self, a: int): ...\n    @t.overload\n    def m(self, a: str): ...\n    m = 1',
